@@ -128,8 +128,9 @@ func checkC20(c *Ctx, r *Report) {
 		if len(ri.Vals) == 2 {
 			if call, ok := ri.Vals[1].(*ssa.Call); ok {
 				if obj := calleeObj(&call.Call); obj != nil && (isFunc(obj, "errors", "New") || isFunc(obj, "fmt", "Errorf")) {
-					// inside the loop over the service list
-					if inCycle(ri.At) || dominatedByRange(ri.Point()) {
+					// inside the loop over the service list, and on the path on which no name matched: not
+					// reachable (within the iteration) from the matching edge of any name comparison
+					if (inCycle(ri.At) || dominatedByRange(ri.Point())) && !reachedFromNameMatch(validate, ri.At) {
 						defErr = true
 					}
 				}
@@ -359,7 +360,7 @@ func stringConstsComparedIn(f *ssa.Function) map[string]bool {
 		}
 		eachInstr(g, func(_ *ssa.BasicBlock, _ int, ins ssa.Instruction) {
 			bo, ok := ins.(*ssa.BinOp)
-			if !ok || bo.Op != token.EQL {
+			if !ok || (bo.Op != token.EQL && bo.Op != token.NEQ) {
 				return
 			}
 			for _, v := range []ssa.Value{bo.X, bo.Y} {
@@ -373,6 +374,49 @@ func stringConstsComparedIn(f *ssa.Function) map[string]bool {
 		})
 	}
 	return out
+}
+
+// reachedFromNameMatch: blk can be reached, without going round the loop, from the edge on
+// which a comparison of a string with a constant succeeded (== true edge, != false edge).
+func reachedFromNameMatch(f *ssa.Function, blk *ssa.BasicBlock) bool {
+	heads := map[*ssa.BasicBlock]bool{}
+	for _, b := range f.Blocks {
+		for _, p := range b.Preds {
+			if b.Dominates(p) {
+				heads[b] = true
+			}
+		}
+	}
+	for _, b := range f.Blocks {
+		if len(b.Instrs) == 0 || len(b.Succs) != 2 {
+			continue
+		}
+		iff, ok := b.Instrs[len(b.Instrs)-1].(*ssa.If)
+		if !ok {
+			continue
+		}
+		bo, ok := iff.Cond.(*ssa.BinOp)
+		if !ok || (bo.Op != token.EQL && bo.Op != token.NEQ) {
+			continue
+		}
+		isName := false
+		for _, v := range []ssa.Value{bo.X, bo.Y} {
+			if s, ok := constString(v); ok && s != "" {
+				isName = true
+			}
+		}
+		if !isName {
+			continue
+		}
+		match := b.Succs[0]
+		if bo.Op == token.NEQ {
+			match = b.Succs[1]
+		}
+		if match == blk || threadedReachAvoid(b, match, heads)[blk] {
+			return true
+		}
+	}
+	return false
 }
 
 // dominatedByRange: the instruction lies in a block dominated by a loop head.
